@@ -19,7 +19,9 @@
 (***************************************************************************)
 EXTENDS Naturals, Integers, Sequences, FiniteSets, TLC
 
-CONSTANTS SAdd(_,_), SMul(_,_), SNeg(_), SDiv(_,_), SFn(_,_), SPow(_,_), SDPow(_,_), SZero, SOne
+CONSTANTS SAdd(_,_), SMul(_,_), SNeg(_), SDiv(_,_), SFn(_,_), SPow(_,_), SDPow(_,_), SZero, SOne,
+          AdjCanon(_,_)   \* AdjCanon(n, t): the adjoint tensor of node n as carried on (identity, except in the
+                          \* symbolic domain, where it is replaced by fresh symbols and its definition is emitted)
 
 INSTANCE TensorCore
 
@@ -118,7 +120,7 @@ SumTensors(cs) == T(cs[1].d, [k \in 1..Len(cs[1].v) |-> SumV([i \in 1..Len(cs) |
 AdjOf(S, n, root, acc) ==
   LET ps == EdgeSeq(Edges(S, n, root, acc)) IN
   IF ps = <<>> THEN None
-  ELSE Some(SumTensors([i \in 1..Len(ps) |-> Contribution(S, ps[i][1], ps[i][2], acc[ps[i][1]].x)] \o <<>>))
+  ELSE Some(AdjCanon(n, SumTensors([i \in 1..Len(ps) |-> Contribution(S, ps[i][1], ps[i][2], acc[ps[i][1]].x)] \o <<>>)))
 
 \* descending from the root: acc maps every node above n to None | Some(adjoint).
 \* (Strict: the accumulated map is passed as a value, not re-evaluated at each level.)
